@@ -120,5 +120,32 @@ func corpus() []caseInput {
 		gVsys{Rules: []gRule{ru("r1-1", l("IP_10.1.1.2"), l("any"), l("udp 123")), ru("r1", l("IP_10.1.1.1"), l("any"), l("tcp 80"))},
 			Addrs: A[:2], Svcs: S},
 		gVsys{Rules: []gRule{drop, ru("r2", l("IP_10.1.1.2"), l("any"), l("udp 123"))}, Addrs: A[:2], Svcs: S}))
+	// same-named service-group, one member differs only in its NAME (same definition)
+	cs = append(cs, pair("corpus:sgroup-member-renamed",
+		gVsys{Rules: []gRule{ru("r1", l("any"), l("any"), l("test"))}, SGroups: []gGrp{{"test", l("TCP 80 HTTP", "tcp 443")}},
+			Svcs: []gSvc{{Name: "TCP 80 HTTP", Proto: "tcp", Port: "80"}, {Name: "tcp 443", Proto: "tcp", Port: "443"}}},
+		gVsys{Rules: []gRule{ru("r1", l("any"), l("any"), l("test"))}, SGroups: []gGrp{{"test", l("tcp 80", "tcp 443")}}, Svcs: sv("tcp 80", "tcp 443")}))
+	// same-named address of a kind other than ip-netmask, value changed
+	rng1 := gAddr{Name: "RANGE_1", IP: "10.1.1.3-10.1.1.7", Kind: "ip-range"}
+	rng2 := gAddr{Name: "RANGE_1", IP: "10.1.1.3-10.1.1.9", Kind: "ip-range"}
+	fq1 := gAddr{Name: "FQDN_1", IP: "a.example.com", Kind: "fqdn"}
+	fq2 := gAddr{Name: "FQDN_1", IP: "b.example.com", Kind: "fqdn"}
+	cs = append(cs, pair("corpus:ip-range-changed",
+		gVsys{Rules: []gRule{ru("r1", l("RANGE_1"), l("FQDN_1"), l("any"))}, Addrs: []gAddr{rng1, fq1}},
+		gVsys{Rules: []gRule{ru("r1", l("RANGE_1"), l("FQDN_1"), l("any"))}, Addrs: []gAddr{rng2, fq1}}))
+	cs = append(cs, pair("corpus:fqdn-changed",
+		gVsys{Rules: []gRule{ru("r1", l("RANGE_1"), l("FQDN_1"), l("any"))}, Addrs: []gAddr{rng1, fq1}},
+		gVsys{Rules: []gRule{ru("r1", l("RANGE_1"), l("FQDN_1"), l("any"))}, Addrs: []gAddr{rng1, fq2}}))
+	// inserted rule whose DESTINATION is a group the device knows under another name
+	cs = append(cs, pair("corpus:inserted-rule-dst-group-mapped",
+		gVsys{Rules: []gRule{ru("r1", l("any"), l("g0"), l("tcp 80"))}, Groups: []gGrp{{"g0", l("IP_10.1.1.1", "IP_10.1.1.2")}}, Addrs: A[:2], Svcs: S},
+		gVsys{Rules: []gRule{ru("r1", l("any"), l("G0"), l("tcp 80")), ru("r2", l("any"), l("G0"), l("udp 123"))},
+			Groups: []gGrp{{"G0", l("IP_10.1.1.1", "IP_10.1.1.2")}}, Addrs: A[:2], Svcs: S}))
+	// … or that clashes with a device group that is no longer needed
+	cs = append(cs, pair("corpus:inserted-rule-dst-group-clash",
+		gVsys{Rules: []gRule{ru("r1", l("any"), l("g0"), l("tcp 80")), ru("r9", l("any"), l("g1"), l("udp 123"))},
+			Groups: []gGrp{{"g0", l("IP_10.1.1.1")}, {"g1", l("IP_10.1.1.4")}}, Addrs: A, Svcs: S},
+		gVsys{Rules: []gRule{ru("r1", l("any"), l("g0"), l("tcp 80")), ru("r2", l("any"), l("g1"), l("tcp 80"))},
+			Groups: []gGrp{{"g0", l("IP_10.1.1.1")}, {"g1", l("IP_10.1.1.2")}}, Addrs: A, Svcs: S}))
 	return cs
 }
